@@ -10,7 +10,11 @@ LEVEL = 'proof'
 TRUSTED = [
     'translate/c06.py + translate/pyexpr.py: Python ast -> Gallina for the shift/mask expressions, range-check idioms, run2d formulas, mjd offsets',
     'hand-written glue model C06/Model.v (scalar/array promotion, shape checks, line/index exclusivity) -- tied by correspondence only',
-    'numpy int64/uint64 shift/or semantics and str->int conversion of ID strings (exercised, not modelled)',
+    'Lib/NumpyInt.v: hand-written model of NumPy fixed-width integer arithmetic (astype wraps, array << int and array - int keep the '
+    'array type and wrap, a literal that does not fit raises OverflowError, comparisons with Python ints are exact; mixed-type | is '
+    'NOT modelled) -- tied to NumPy by the typed correspondence cases (every argument a 1-element array of its own type, int8..uint64); '
+    'the typed theorems cover the all-array calling convention only',
+    'str->int conversion of ID strings, byte order and strides of the unwrap inputs (exercised, not modelled)',
     'Coq stdlib ZArith, Lia (theorems closed under the global context)',
 ]
 ASSUMPTIONS = [
@@ -81,6 +85,11 @@ def rand_in(rng, ranges):
             out.append(rng.randint(lo, hi))
     return out
 
+
+ITY = {'int8': 'I8', 'uint8': 'U8', 'int16': 'I16', 'uint16': 'U16', 'int32': 'I32', 'uint32': 'U32',
+       'int64': 'I64', 'uint64': 'U64'}
+DTYPES = {'int16': (-2 ** 15, 2 ** 15 - 1), 'uint16': (0, 2 ** 16 - 1), 'int32': (-2 ** 31, 2 ** 31 - 1),
+          'uint32': (0, 2 ** 32 - 1), 'int64': (-2 ** 63, 2 ** 63 - 1), 'uint64': (0, 2 ** 64 - 1)}
 
 # memory layouts of the integer ID arrays handed to the unwrap functions (same values in all three)
 LAYOUTS = ('native', 'bigendian', 'strided')
@@ -236,6 +245,73 @@ def gen_calls(ctx):
             else:
                 others[4] = others[5] = 0
             calls.append(('sweepspec', {'f': 'sweepspec', 'i': i, 'lo': lo, 'n': hi - lo + 1, 'others': others, 'use': use}))
+    # typed single-row calls (C06/Typed.v): every argument a 1-element array of its own integer type
+    names = list(DTYPES) + ['int8', 'uint8']
+    rng8 = dict(DTYPES, int8=(-128, 127), uint8=(0, 255))
+
+    def fitting(v):
+        return [n for n in names if rng8[n][0] <= v <= rng8[n][1]]
+
+    def tcall(kind, vals, dts=None, use=None):
+        vals = [int(v) for v in vals]
+        dts = dts or [rng.choice(fitting(v)) for v in vals]
+        c = {'f': kind, 'vals': vals, 'dts': dts}
+        if kind == 'tspec':
+            c['use'] = use
+            if use != 'line':
+                vals[4] = 0
+            if use != 'index':
+                vals[5] = 0
+        return c
+
+    def spec_true(v):
+        v = list(v)
+        v[2] += 50000
+        return v
+
+    for k in range(ctx.n(150, 2000)):
+        calls.append(('typed-objid-inrange', tcall('tobj', rand_in(rng, OBJ_RANGES))))
+        calls.append(('typed-spec-inrange', tcall('tspec', spec_true(rand_in(rng, SPEC_RANGES)), use=rng.choice([None, 'line', 'index']))))
+    for i, (lo, hi) in enumerate(OBJ_RANGES):
+        for dt in names:
+            for x in sorted(set([lo - 1, lo, hi, hi + 1, rng8[dt][0], rng8[dt][1]])):
+                if rng8[dt][0] <= x <= rng8[dt][1]:
+                    v = rand_in(rng, OBJ_RANGES)
+                    v[i] = x
+                    dts = [rng.choice(fitting(z)) for z in v]
+                    dts[i] = dt
+                    calls.append(('typed-objid-boundary', tcall('tobj', v, dts)))
+    for i, (lo, hi) in enumerate(SPEC_RANGES):
+        off = 50000 if i == 2 else 0
+        extra = [0, 500, 847, 848, 15535, 15536, 49999, 65535, 65536] if i == 2 else []
+        for dt in names:
+            for x in sorted(set([lo - 1 + off, lo + off, hi + off, hi + 1 + off, rng8[dt][0], rng8[dt][1]] + extra)):
+                if rng8[dt][0] <= x <= rng8[dt][1]:
+                    v = spec_true(rand_in(rng, SPEC_RANGES))
+                    v[i] = x
+                    use = 'line' if i == 4 else ('index' if i == 5 else rng.choice([None, 'line', 'index']))
+                    c = tcall('tspec', v, None, use)
+                    c['dts'] = [rng.choice(fitting(z)) for z in c['vals']]
+                    c['dts'][i] = dt
+                    if rng8[dt][0] <= c['vals'][i] <= rng8[dt][1]:
+                        calls.append(('typed-spec-boundary', c))
+
+    # integer types of the array arguments: two calls in three keep int64, the third gives every array argument
+    # its own type among those that hold all its values (catalogue columns are int16/int32; the value, and hence
+    # the model case, is the same number whatever the storage type)
+    k = 0
+    for tag, c in calls:
+        if c['f'] not in ('objid', 'spec'):
+            continue
+        arrs = [v for v in c['args'].values() if isinstance(v, dict) and 'a' in v and v['a']]
+        if not arrs:
+            continue
+        k += 1
+        if k % 3:
+            continue
+        for v in arrs:
+            fits = [n for n, (lo, hi) in DTYPES.items() if lo <= min(v['a']) and max(v['a']) <= hi]
+            v['dt'] = rng.choice(fits)
     return calls
 
 
@@ -273,6 +349,10 @@ def case_terms(calls, results, default_sky):
                     terms.append((ci, j, '(%s %s %s)' % (ctor, C.zlit(i_), C.coq_list([C.zlit(v) for v in row]))))
             else:
                 terms.append((ci, 0, '(%s 0 [])' % ctor))   # any exception on unwrap is a mismatch
+        elif f in ('tobj', 'tspec'):
+            terms.append((ci, 0, '(%s [%s] %s %s)' % (
+                'CTObjid' if f == 'tobj' else 'CTSpec', '; '.join(ITY[d] for d in c['dts']),
+                C.coq_list([C.zlit(v) for v in c['vals']]), res_term(r))))
         elif f in ('sweepobj', 'sweepspec'):
             ctor = 'CSweepObj' if f == 'sweepobj' else 'CSweepSpec'
             sm = r['sum'] if 'sum' in r else -1
@@ -285,6 +365,10 @@ HEADER = '''From Coq Require Import ZArith List. Import ListNotations.
 From PV Require Import C06.Model. Open Scope Z_scope.'''
 
 
+HEADER_TYPED = '''From Coq Require Import ZArith List. Import ListNotations.
+From PV Require Import Lib.NumpyInt C06.Model C06.Typed. Open Scope Z_scope.'''
+
+
 def signature(tag, c, r, verdict):
     kind = c['f']
     conv = ''
@@ -293,14 +377,36 @@ def signature(tag, c, r, verdict):
         conv = 'mjd=%s,run2d=%s' % ('array' if 'a' in A['mjd'] else 'scalar', 'str' if 'str' in A['run2d'] else ('array' if 'a' in A['run2d'] else 'int'))
     elif kind == 'sweepspec':
         conv = 'mjd=array'
+    if kind in ('tobj', 'tspec'):
+        conv = 'types=' + ('int64' if set(c['dts']) == {'int64'} else 'other-than-int64')
+    if kind in ('objid', 'spec'):
+        dts = sorted(set(v['dt'] for v in c['args'].values() if isinstance(v, dict) and v.get('dt') and v['dt'] != 'int64'))
+        if dts:
+            conv += ('' if not conv else ',') + 'array-types-other-than-int64'
     out = 'ok' if ('ok' in r or 'sum' in r) else r.get('err', '?')
     return 'C06:%s:%s:impl=%s:%s' % (kind, conv, out, 'property' if verdict >= 2 else 'model')
 
 
+def dtype_dist(calls):
+    d = {}
+    for _, c in calls:
+        if c['f'] in ('objid', 'spec'):
+            for v in c['args'].values():
+                if isinstance(v, dict) and 'a' in v:
+                    d[v.get('dt', 'int64')] = d.get(v.get('dt', 'int64'), 0) + 1
+        elif c['f'] in ('tobj', 'tspec'):
+            for dt in c['dts']:
+                d['typed:' + dt] = d.get('typed:' + dt, 0) + 1
+        elif c['f'] in ('unobj', 'unspec'):
+            key = 'unwrap:' + ('str' if c.get('as_str') else c.get('layout', 'native'))
+            d[key] = d.get(key, 0) + 1
+    return d
+
+
 def correspond(ctx, proof_ok=True):
-    ok, log = C.coq_make(['C06/Model.vo'])
+    ok, log = C.coq_make(['C06/Model.vo', 'C06/Typed.vo'])
     if not ok:
-        raise RuntimeError('C06/Model.v does not build:\n' + log[-2000:])
+        raise RuntimeError('C06/Model.v / C06/Typed.v do not build:\n' + log[-2000:])
     calls = gen_calls(ctx)
     # run implementation in a few parallel batches
     nb = 8
@@ -315,14 +421,18 @@ def correspond(ctx, proof_ok=True):
     terms = case_terms(calls, results, default_sky)
     cc = C.CoqCases(ctx.work, HEADER, 'run_cases', shard=250)
     heavy = [k for k, (_, _, t) in enumerate(terms) if t.startswith('(CSweep')]
-    light = [k for k in range(len(terms)) if k not in set(heavy)]
+    typed = [k for k, (_, _, t) in enumerate(terms) if t.startswith('(CT')]
+    light = [k for k in range(len(terms)) if k not in set(heavy) and k not in set(typed)]
     verdicts = [None] * len(terms)
+    ct = C.CoqCases(ctx.work, HEADER_TYPED, 'run_tcases', shard=400)
+    for k, v in zip(typed, ct.run([terms[k][2] for k in typed], tag='typed')):
+        verdicts[k] = v
     for k, v in zip(light, cc.run([terms[k][2] for k in light], tag='cases')):
         verdicts[k] = v
     cc.shard = 1   # one sweep per coqc process
     for k, v in zip(heavy, cc.run([terms[k][2] for k in heavy], tag='sweeps')):
         verdicts[k] = v
-    ctx.coverage['coq_eval_s'] = round(cc.coq_seconds, 1)
+    ctx.coverage['coq_eval_s'] = round(cc.coq_seconds + ct.coq_seconds, 1)
 
     # direct checks on the real code (behavioural statement of the property)
     direct_bad = []
@@ -345,6 +455,7 @@ def correspond(ctx, proof_ok=True):
                 '(compared through a checksum of all IDs and a real unwrap(pack()) round trip); distinct = distinct Coq case terms',
         'cases_by_kind_and_outcome': dist,
         'swept_values': swept,
+        'array_argument_types': dtype_dist(calls),
         'model_disagreements': sum(1 for b in bad if b[3] & 1),
         'spec_violations': sum(1 for b in bad if b[3] & 2),
         'samples': [{'call': calls[ci][1], 'impl': results[ci], 'coq_case': t[:300]} for ci, j, t in terms[:3]] +
